@@ -78,6 +78,31 @@ def consulted_failures(cls, log):
     return wrapped, rest
 
 
+def parse_epochs(line):
+    """ep=<e0>/<e1>/... -> list of sets of method codes unavailable during call i (None: call-indexed scripts)"""
+    last = line.split()[-1]
+    if not last.startswith("ep="):
+        return None
+    return [set() if e == "-" else {e[i:i + 2] for i in range(0, len(e), 2)} for e in last[3:].split("/")]
+
+
+def epoch_failures(cls, T):
+    """What the property demands from the *state of the model* during this call, whether or not the class asked:
+    (unavailable quantities inside the wrapped Gaussian correction only, unavailable quantities that must give `pred`)."""
+    if cls in ("kf", "glik", "bootg"):
+        return [], sorted(T & {"me", "pr", "in", "no"})
+    if cls in ("ukfa", "ukfg", "sukf"):
+        return [], sorted(T & {"me", "pr", "in"})
+    if cls == "boots":
+        return [], sorted(T & {"li"})
+    _, w, lk = cls.split("-")
+    if lk == "g":          # the Gaussian likelihood needs all four
+        return [], sorted(T & {"me", "pr", "in", "no"})
+    if "li" in T:
+        return [], ["li"]
+    return sorted(T & ({"me", "pr", "in"} | ({"no"} if w == "kf" else set()))), []
+
+
 def check_single(line, hout, dout, stats, notes):
     t = line.split()
     cls, m, sub = t[1], int(t[4]), int(t[6])
@@ -87,12 +112,23 @@ def check_single(line, hout, dout, stats, notes):
     hs, ds = hout.split(), dout.split()
     size_fail = cls == "sukf" and m % sub != 0      # SUKF's own early return (size not divisible by the sub-size)
     br = stats.setdefault("branches", {})
+    epochs = parse_epochs(line)
+    if epochs is not None and len(hs) != len(epochs):
+        return [("harness-output", "unexpected number of calls in the harness output")]
     for i, tok in enumerate(hs):
         _, lab, calls, same = tok.split(":")
         mtok = ds[i].split(":") if i < len(ds) else [None, None, None]
         where = "call %d: " % i if len(hs) > 1 else ""
         log = parse_log(calls)
         wrapped, rest = consulted_failures(cls, log)
+        if epochs is not None:
+            # the model *is* in that state during the whole call: a class that no longer asks (cached covariance,
+            # cached measurement, cached validity) is still bound by the property
+            ew, er = epoch_failures(cls, epochs[i])
+            wrapped, rest = sorted(set(wrapped) | set(ew)), sorted(set(rest) | set(er))
+            if er and not any(mth in er and not ok for mth, ok in log):
+                where += "(the class did not ask for the unavailable %s in this call) " % "/".join(er)
+            stats["epoch_calls"] = stats.get("epoch_calls", 0) + 1
         labs = labset(lab)
         stats["observations"] = stats.get("observations", 0) + 1
         if lab.startswith("ambiguous"):
@@ -143,9 +179,19 @@ def check_sis(line, hout, dout, stats, notes):
     if hout.startswith("crash") or hout.startswith("throw") or hout in ("boot-failed", "wait-failed", "no-steps"):
         return [("%s:crash" % cls, "the SIS run failed (%s)" % hout[:60])]
     hs, ds = hout.split(), dout.split()
+    epochs = parse_epochs(line)
     for i, tok in enumerate(hs):
         step, lab, calls = tok.split(":")
         log = parse_log(calls)
+        if epochs is not None and i < len(epochs):
+            # state-based script: add what the model would have answered had it been asked
+            T = epochs[i]
+            if "fz" in T and not any(mth == "fz" for mth, ok in log):
+                log = [("fz", False)] + log
+            need = {"me", "pr", "in", "no"} if cls == "sis-bootg" else {"li"}
+            for mth in sorted(T & need):
+                if "fz" not in T and not any(m2 == mth and not ok for m2, ok in log):
+                    log.append((mth, False))
         stats["observations"] = stats.get("observations", 0) + 1
         if lab.startswith("ambiguous"):
             stats["uninformative"] = stats.get("uninformative", 0) + 1
@@ -249,10 +295,61 @@ def random_cases(g, count):
             k = max(k, 3)
         p = r.choice([0.1, 0.3, 0.6])
         sc = {x: [r.random() >= p for _ in range(r.randint(0, 8))] for x in METHODS}
+        if r.random() < 0.35:
+            # state-based script, 2..5 calls / steps on one object
+            nep = r.randint(2, 5)
+            pe = r.choice([0.1, 0.25])
+            seq = ["".join(x for x in METHODS if r.random() < pe) or "-" for _ in range(nep)]
+            if cls.startswith("sis-"):
+                sub = nep
+            cases.append((mkline(cls, r.randint(0, 99999), n, m, k, sub, EMPTY) + " ep=" + "/".join(seq), {"style": "random-epochs", "cls": cls}))
+            continue
         ln = mkline(cls, r.randint(0, 99999), n, m, k, sub, sc)
         if not cls.startswith("sis-") and r.random() < 0.6:
             ln += " reps=%d" % r.randint(2, 5)       # successive correct() calls on the same object
         cases.append((ln, {"style": "random", "cls": cls}))
+    return cases
+
+
+EMPTY = {x: [] for x in METHODS}
+
+
+def epoch_cases(g, variants):
+    """State-based scripts on ONE object: during call i the methods in e_i are unavailable however often -- or whether
+    at all -- they are asked.  Every all-valid call followed by every failing subset; two successes then a failure;
+    failure -> success -> failure and success -> failure -> success -> failure for all pairs of single failures."""
+    r = g.r
+    cases = []
+    classes = ["kf", "ukfa", "ukfg", "sukf", "glik", "bootg", "boots"] + ["gpf-%s-%s" % (w, l) for w in GAUSS for l in "gs"]
+
+    def ep(seq):
+        return "ep=" + "/".join(("".join(sorted(e)) or "-") for e in seq)
+
+    for cls in classes:
+        meths = ["li", "me"] if cls == "boots" else ["me", "pr", "in", "no"] + (["li"] if cls.endswith("-s") else [])
+        seqs = []
+        for nfail in range(1, len(meths) + 1):
+            for sub in itertools.combinations(meths, nfail):
+                seqs.append([set(), set(sub)])
+        for a in meths:
+            seqs.append([set(), set(), {a}])
+            seqs.append([set(), {a}, set()])
+            for b in meths:
+                seqs.append([{a}, set(), {b}])
+                seqs.append([set(), {a}, set(), {b}])
+        for seq in seqs:
+            for v in range(variants):
+                n, m, k = sizes(r, v == 0)
+                sb = r.choice([d for d in (1, 2, 3) if m % d == 0]) if "sukf" in cls else 1
+                cases.append((mkline(cls, r.randint(0, 99999), n, m, k, sb, EMPTY) + " " + ep(seq), {"style": "epoch-sequence", "cls": cls}))
+    for cls, meths in (("sis-bootg", ["me", "pr", "in", "no"]), ("sis-boots", ["li"])):
+        seqs = [[set(), {"fz"}, set()], [{"fz"}, set(), {"fz"}], [{"fz"}, {"fz"}, set()], [set(), set(), {"fz"}]]
+        for a in meths:
+            seqs += [[set(), {"fz"}, {a}], [set(), {a}, {"fz"}], [{a}, set(), {"fz", a}], [{"fz"}, {a}, set()]]
+        for seq in seqs:
+            for v in range(variants):
+                n, m, k = sizes(r, True)
+                cases.append((mkline(cls, r.randint(0, 99999), n, m, max(k, 3), len(seq), EMPTY) + " " + ep(seq), {"style": "epoch-sequence", "cls": cls}))
     return cases
 
 
@@ -294,6 +391,7 @@ def run(ctx):
             cases += [(ln.strip(), {"style": "corpus", "cls": ln.split()[1]}) for ln in corpus.read_text().split("\n") if ln.strip() and not ln.startswith("#")]
         cases += exhaustive_cases(ctx.gen("fault-exh"), ctx.n(3, 6))
         cases += sequence_cases(ctx.gen("fault-seq"))
+        cases += epoch_cases(ctx.gen("fault-epoch"), ctx.n(2, 4))
         cases += random_cases(ctx.gen("fault-rnd"), ctx.n(4000, 30000))
     lines = [c[0] for c in cases]
     hout, logs = vlib.run_harness(binary, lines)
@@ -317,17 +415,25 @@ def run(ctx):
         best = min((x for x in prop_bad if x[0] == key), key=lambda x: (sum(c == "0" for c in x[2].split("fz=")[1]), len(x[2])))
         ctx.violation(best[0], best[1], {"harness": "h_fault", "input_line": best[2], "observed": best[3][:2000],
                                          "crash_log": next((logs[i] for i, l in enumerate(lines) if l == best[2] and i in logs), None)})
-    failing = sum(1 for l in lines if "0" in l.split("fz=")[1])
+    def has_failure(l):
+        tail = l.split("fz=")[1]
+        if " ep=" in tail:
+            return any(c.isalpha() for c in tail.split(" ep=")[1])
+        return "0" in tail.split(" reps=")[0]
+    failing = sum(1 for l in lines if has_failure(l))
     ctx.coverage.update({
         "evaluations": len(cases),
-        "distinct_nontrivial": len(set(l for l in lines if "0" in l.split("fz=")[1])),
+        "distinct_nontrivial": len(set(l for l in lines if has_failure(l))),
         "rule": "one evaluation = one correction class x one fault script (per-method lists of validity answers consumed call by call) x one "
                 "random belief (n in 1..4, measurement size 1..3, 1..4 components / particles; the first variant of every script has >= 2 "
                 "components and measurement size >= 2), output container pre-filled with poison; exhaustive part: every combination of answers "
                 "at the first call of each method for kf / ukfa / ukfg / glik / bootg (16), sukf x 7 size pairings (32 each, incl. sizes not "
                 "divisible by the sub-size), boots (2), gpf-<kf|ukfa|ukfg|sukf>-g over the first two calls of each method (256 each), "
                 "gpf-*-s (32 each), the real SIS thread over all freeze patterns of 3 steps x likelihood faults; plus three successive correct() calls "
-                "on one object with valid/failing patterns per method, plus random longer scripts (60 % with 2..5 successive calls); "
+                "on one object with valid/failing patterns per method; state-based scripts (`ep=`: during call i the named methods are unavailable "
+                "whether or not the class asks) on one object for every class: every all-valid call followed by every failing subset, two "
+                "successes then a failure, failure->success->failure and success->failure->success->failure for all pairs of single failures, "
+                "SIS freeze/likelihood patterns per step; plus random longer scripts (call-indexed with 2..5 successive calls, or state-based); "
                 "non-trivial = at least one scripted 'unavailable' answer; distinct = distinct input lines",
         "samples": [lines[0][:300], lines[len(lines) // 2][:300], lines[-1][:300]],
         "exhaustive": True,
@@ -336,6 +442,7 @@ def run(ctx):
         "cases_with_a_scripted_failure": failing,
         "traces_validated_against_impl": len(cases),
         "call_logs_identical_to_model": stats.get("logs_identical", 0),
+        "state_based_calls_checked": stats.get("epoch_calls", 0),
         "model_branch_hits": dict(sorted(stats.get("branches", {}).items())),
         "property_failures_on_impl": len(prop_bad),
         "property_failures_by_key": {k: sum(1 for x in prop_bad if x[0] == k) for k in sorted(set(x[0] for x in prop_bad))},
